@@ -261,6 +261,9 @@ func c11(c *ctx) {
 	// ------------------------------------------------------------------ R9
 	c.ruleBlockCacheComplete("R9")
 
+	// ------------------------------------------------------------------ R10
+	c.ruleBlockResultsReadOnly("R10")
+
 }
 
 // the named result `r` lives in a cell because of the deferred recover: it holds the fresh results object or nil
@@ -560,4 +563,108 @@ func stripConv(v ssa.Value) ssa.Value {
 			return v
 		}
 	}
+}
+
+// ruleBlockResultsReadOnly (C11.R10 / C03.R8): a *lib.BlockResult that a function receives or loads may be the entry of
+// the process-wide block cache (IndexBlock caches the object it is handed; GetBlockByHeight returns the cached object), and
+// it is what the archive serves to syncing peers. Readers must therefore not change it: no store through it and no
+// in-place reordering of its Transactions / Events. (The block under construction is a fresh object and is not concerned.)
+func (c *ctx) ruleBlockResultsReadOnly(R string) {
+	r := c.r
+	r.Rule(R, "ALIAS", "indexed blocks are immutable to their readers: a function that receives or loads a *lib.BlockResult does not store through it and does not sort/reverse its Transactions or Events in place (IndexBlock, which fills the size metadata of the block it is indexing, excepted)", 1)
+	brT := c.p.Named("lib", "BlockResult")
+	if !r.Anchor(brT != nil, "lib.BlockResult") {
+		return
+	}
+	allowed := map[string]string{
+		"(*store.Indexer).IndexBlock":    "sets Meta.Size on the block being indexed, before it is cached",
+		"(*store.Indexer).setBlocksTook": "fills Meta.Took of the per-page shallow copies GetBlocks builds (each with its own Meta) for exactly that purpose",
+	}
+	isBR := func(t types.Type) bool {
+		pt, ok := t.(*types.Pointer)
+		if !ok {
+			return false
+		}
+		nt := namedOf(pt.Elem())
+		return nt != nil && nt.Obj() == brT.Obj()
+	}
+	holders, bad := 0, 0
+	for _, f := range c.p.Funcs {
+		if !inCanopy(f) || isTestFile(c.p, f.Pos()) || f.Parent() != nil {
+			continue
+		}
+		switch pkgShort(f) {
+		case "fsm", "controller", "store", "bft":
+		default:
+			continue
+		}
+		// roots: block results this function did not create
+		var roots []string
+		for _, pa := range f.Params {
+			if isBR(pa.Type()) {
+				roots = append(roots, c.p.path(pa))
+			} else if sl, ok := pa.Type().Underlying().(*types.Slice); ok && isBR(sl.Elem()) {
+				roots = append(roots, c.p.path(pa)) // a list of block results (blocks ...*lib.BlockResult)
+			}
+		}
+		for _, g := range withAnons(f) {
+			instrs(g, func(in ssa.Instruction) {
+				if v, ok := in.(ssa.Value); ok {
+					if call, isCall := in.(*ssa.Call); isCall {
+						if isBR(v.Type()) {
+							roots = append(roots, c.p.path(v))
+						} else if tup, ok := call.Type().(*types.Tuple); ok && tup.Len() > 0 && isBR(tup.At(0).Type()) {
+							roots = append(roots, c.p.path(v)+"#0")
+						}
+					}
+				}
+			})
+		}
+		if len(roots) == 0 {
+			continue
+		}
+		holders++
+		derived := func(pth string) string {
+			pth = strings.TrimLeft(pth, "&*")
+			for _, rt := range roots {
+				if strings.HasPrefix(pth, rt+".") || strings.HasPrefix(pth, rt+"[") {
+					return rt
+				}
+			}
+			return ""
+		}
+		name := fnName(f)
+		report := func(pos token.Pos, what string) {
+			if why, ok := allowed[name]; ok {
+				r.OK(R+"/"+name+"/mutation", c.p.Pos(pos), "table: "+why)
+				return
+			}
+			bad++
+			r.Bad(R+"/"+name+"/mutation", c.p.Pos(pos), name+" "+what+": the object may be the process-wide cache entry of that height, so every later reader — certificate results, the archive that serves syncing peers — sees the change")
+		}
+		for _, g := range withAnons(f) {
+			instrs(g, func(in ssa.Instruction) {
+				switch x := in.(type) {
+				case *ssa.Store:
+					if _, isLocal := x.Addr.(*ssa.Alloc); isLocal {
+						return // assignment to a local variable (rendered as its content)
+					}
+					if rt := derived(c.p.path(x.Addr)); rt != "" {
+						report(x.Pos(), "stores through the block result "+rt+" ("+c.p.path(x.Addr)+")")
+					}
+				case *ssa.Call:
+					cn := calleeName(x.Common())
+					if strings.HasPrefix(cn, "sort.") || strings.HasPrefix(cn, "slices.Sort") || strings.HasPrefix(cn, "slices.Reverse") {
+						if len(x.Common().Args) > 0 {
+							if rt := derived(c.p.path(x.Common().Args[0])); rt != "" {
+								report(x.Pos(), "reorders "+c.p.path(x.Common().Args[0])+" of the block result "+rt+" in place ("+cn+")")
+							}
+						}
+					}
+				}
+			})
+		}
+	}
+	r.Analysed["block_result_holders"] = holders
+	r.Check(holders >= 5, R+"/holders", "?", fmt.Sprintf("%d functions hold a block result they did not create; %d mutate it", holders, bad), fmt.Sprintf("only %d functions holding a block result found (rule needs re-reading)", holders))
 }
